@@ -1095,8 +1095,39 @@ fn explicit_steps(base: &[Step], d: &[u8], cap: usize) -> Vec<Step> {
 
 /// C07's own cases.  `gen_skip` (C09) and `gen_fault` (C20) are assembled into those checks by
 /// c09.rs / c20.rs; set VERIF_C07_ALL=1 to run all three through `./check C07` while developing.
+/// Every byte value through every word-at-a-time scanner: SWAR tricks have per-byte-VALUE blind spots
+/// (e.g. a mask that takes 0xA2 for 0x22), which random documents reach only by luck.  For each of the 256
+/// values: inside a quoted scalar, inside an unquoted scalar, in a blank run, inside a comment and inside a
+/// skipped container, each at two offsets of the 8-byte word, read from a slice (fast paths in play) and
+/// streamed with one-byte reads (byte-wise paths) -- the L3 oracle requires the two to agree.
+pub fn gen_byte_sweep(g: &mut Gen) {
+    for b in 0..=255u8 {
+        for pad in [1usize, 6] {
+            let filler = |n: usize| std::iter::repeat(b'a').take(n).collect::<Vec<u8>>();
+            let mut shapes: Vec<Vec<u8>> = vec![];
+            // quoted: "aaa<b>aaaaaaaaaaaaaaaa" = x
+            if b != b'"' && b != b'\\' { let mut v = vec![b'"']; v.extend(filler(pad)); v.push(b); v.extend(filler(18)); v.extend_from_slice(b"\" = xyz 12345678 "); shapes.push(v); }
+            // escaped occurrence: "aaa\<b>aaaaaaaa"
+            { let mut v = vec![b'"']; v.extend(filler(pad)); v.push(b'\\'); v.push(b); v.extend(filler(18)); v.extend_from_slice(b"\" = xyz 12345678 "); shapes.push(v); }
+            // unquoted scalar containing b (boundary bytes simply end it -- still a valid comparison)
+            { let mut v = filler(pad + 2); v.push(b); v.extend(filler(14)); v.extend_from_slice(b" = value1234567 tail "); shapes.push(v); }
+            // blank run with b in it, then a token
+            { let mut v = vec![b'\t'; pad]; v.push(b); v.extend(std::iter::repeat(b'\n').take(10)); v.extend_from_slice(b"key=value1234567 "); shapes.push(v); }
+            // comment containing b
+            { let mut v = b"a=b #".to_vec(); v.extend(filler(pad)); v.push(b); v.extend(filler(12)); v.extend_from_slice(b"\nc=d1234567890 "); shapes.push(v); }
+            for d in shapes {
+                g.emit(format!("tlex {}", hex(&d)));
+                g.emit(format!("tstream {} R1 {}", d.len() + 9, hex(&d)));
+                g.emit(format!("tstream 64 R7 {}", hex(&d)));
+            }
+        }
+    }
+    g.count("byte-value-sweep");
+}
+
 pub fn gen(g: &mut Gen) {
     gen_c07(g);
+    gen_byte_sweep(g);
     if std::env::var("VERIF_C07_ALL").map(|v| v == "1").unwrap_or(false) {
         gen_skip(g);
         gen_fault(g);
